@@ -147,6 +147,19 @@ static void drv_header(jb_t *b);
 static int e_priv_token;
 #define E_PRIV ((void *)&e_priv_token)
 static const char *e_forced_outcome;
+/* What a comparison callback returns.  The library may rely on the sign only, so the magnitude is made
+ * uninformative on purpose, by a rule that is a pure function of the pair (deterministic under re-execution
+ * and antisymmetric): a bare +-1, a value that shrinks as the operands move apart, or the plain difference. */
+static int e_cmp3(long a, long b)
+{
+    long d = a - b, m = d > 0 ? d : -d; int s = d > 0 ? 1 : -1;
+    if (d == 0) return 0;
+    switch ((unsigned long)(a + b) % 3) {
+    case 0: return s;
+    case 1: return s * (int)(1000 / m + 1);
+    default: return s * (int)(m > 30000 ? 30000 : m);
+    }
+}
 static void e_check_priv(const void *p) { if (p != E_PRIV) { e_forced_outcome = "badpriv"; } }
 
 /* ---------------------------------------------------------------- crash capture */
